@@ -125,7 +125,7 @@ Items127(addr, n) ==
     \cup (IF covers(17) THEN {"irqmask"} ELSE {})
 Base127 == {"freq", "modem1", "modem2", "sync"}
 Needed127(mode, call) ==
-    CASE mode = 3 -> Base127 \cup {"pa", "txbase", "preamble", "paylen", "irqmask"}
+    CASE mode = 3 -> IF call = "cw" THEN Base127 \cup {"pa"} ELSE Base127 \cup {"pa", "txbase", "preamble", "paylen", "irqmask"}
       [] mode \in {5, 6} -> IF call = "listen" THEN {"freq", "modem1"} ELSE Base127 \cup {"rxbase", "preamble", "irqmask"}
       [] mode = 7 -> Base127 \cup {"irqmask"}
       [] OTHER -> {}
@@ -149,10 +149,14 @@ StepBus127(s, b, call) ==
               missing == Needed127(mode, call) \ s.prog
               okc == IF mode \in {3, 5, 6, 7}
                      THEN /\ (IF missing = {} THEN TRUE
+                              \* KNOWN FINDING (open): continuous_wave() leaves the driver in mode Transmit, so a tx()
+                              \* straight after it is accepted although no payload (length) was ever programmed
+                              ELSE IF s.cm = "cw" /\ call = "tx" /\ missing \subseteq {"paylen", "txbase"} /\ IsAllowed("tx-after-cw-unprepared")
+                                   THEN Known("tx-after-cw-unprepared", <<"missing", missing>>)
                               ELSE Viol(s, <<"C14-3 operation started without reprogramming after reset", call, mode, "missing", missing>>))
                           /\ (IF lora THEN TRUE ELSE Viol(s, <<"C14-3 operation started outside LoRa mode", call, mode>>))
                      ELSE TRUE
-              newcm == CASE mode = 0 -> "sleep" [] mode = 1 -> "stdby" [] mode = 3 -> "tx" [] mode = 5 -> "rxc"
+              newcm == CASE mode = 0 -> "sleep" [] mode = 1 -> "stdby" [] mode = 3 -> (IF call = "cw" THEN "cw" ELSE "tx") [] mode = 5 -> "rxc"
                          [] mode = 6 -> "rx" [] mode = 7 -> "cad" [] OTHER -> "fs"
           IN [s EXCEPT !.cm = newcm, !.ok = s.ok /\ okc]
       ELSE IF ~isWrite /\ addr = 18 /\ Len(b.r) >= 1 THEN      \* RegIrqFlags read: how the operation ended
@@ -166,12 +170,85 @@ StepBus127(s, b, call) ==
       ELSE IF isWrite THEN [s EXCEPT !.prog = s.prog \cup Items127(addr, n)]
       ELSE s
 
-\* "sx1262-lw" / "sx1276-lw": the same chips driven through the LoRaWAN radio adapter (lorawan_radio.rs)
+\* ---------------------------------------------------------------- the abstract LR1110 (user manual UM.LR1110, 2-4)
+\* 16-bit opcodes; a command's response is read in a separate, read-only transaction (Stat1 first).  With no
+\* response pending a read-only transaction returns Stat1, Stat2 and the 32-bit interrupt status.  In sleep mode
+\* the chip only reacts to NSS going low (any transaction wakes it; a command sent that way is lost), the
+\* configuration survives a sleep with retention (SetSleep bit 0) and is lost otherwise.
+Op16(w) == w[1] * 256 + w[2]
+IsReadOnly(w) == \A i \in 1..Len(w) : w[i] = 0
+\* commands answered in the next read transaction
+RespOps == {257, 269, 281, 282, 288, 293, 294, 262, 264, 266, 513, 514, 515, 516, 517, 560}
+ItemOfLr(w) ==
+    LET op == Op16(w) IN
+    CASE op = 526 -> {"pkttype"}           \* 0x020E SetPktType
+      [] op = 555 -> {"sync"}              \* 0x022B SetLoRaSyncWord
+      [] op = 272 -> {"regulator"}         \* 0x0110 SetRegMode
+      [] op = 279 -> {"tcxo"}              \* 0x0117 SetTcxoMode
+      [] op = 274 -> {"rfswitch"}          \* 0x0112 SetDioAsRfSwitch
+      [] op = 527 -> {"modulation"}        \* 0x020F SetModulationParam
+      [] op = 528 -> {"packet"}            \* 0x0210 SetPktParam
+      [] op = 275 -> {"irq"}               \* 0x0113 SetDioIrqParams
+      [] op = 523 -> {"freq"}              \* 0x020B SetRfFrequency
+      [] op = 533 -> {"paconfig"}          \* 0x0215 SetPaCfg
+      [] op = 529 -> {"txparams"}          \* 0x0211 SetTxParams
+      [] OTHER -> {}
+\* the recorded board uses the DC-DC regulator, a TCXO and the DIOs as RF switch: all three are lost with the rest
+BaseLr == {"pkttype", "regulator", "tcxo", "rfswitch", "modulation", "freq"}
+NeededLr(op, call) ==
+    CASE op = 522 -> BaseLr \cup {"sync", "packet", "irq", "paconfig", "txparams"}      \* SetTx
+      [] op = 537 -> BaseLr \cup {"irq", "paconfig", "txparams"}                        \* SetTxCw
+      [] op = 536 -> BaseLr \cup {"sync", "irq"}                                        \* SetCad
+      [] op \in {521, 532} -> IF call = "listen" THEN BaseLr ELSE BaseLr \cup {"sync", "packet", "irq"}
+      [] OTHER -> {}
+
+StepBusLr(s, b, call) ==
+    IF b.t = "reset" THEN
+        IF b.ok = 1 THEN [s EXCEPT !.cm = "stdby", !.prog = {}, !.pend = FALSE] ELSE s
+    ELSE IF b.t # "spi" \/ b.ok = 0 THEN s
+    ELSE
+      LET w == b.w IN
+      IF Asleep(s.cm) THEN
+          \* clause 2: only a transaction that sends no command may wake the chip
+          IF IsReadOnly(w) THEN [s EXCEPT !.cm = "stdby", !.pend = FALSE]
+          ELSE [s EXCEPT !.ok = Viol(s, <<"C14-2 chip commanded while asleep without wake-up", call, w>>)]
+      ELSE IF IsReadOnly(w) THEN
+          IF s.pend THEN [s EXCEPT !.pend = FALSE]                       \* the response of the previous command
+          ELSE IF Len(b.r) >= 6 THEN                                      \* status: how the operation ended
+              LET f == b.r[5] * 256 + b.r[6]
+                  has(m) == (f \div m) % 2 = 1
+                  done == CASE s.cm = "tx" -> has(4) \/ has(1024)
+                            [] s.cm = "rx" -> has(8) \/ has(1024)
+                            [] s.cm = "cad" -> has(256)
+                            [] OTHER -> FALSE
+              IN IF done THEN [s EXCEPT !.cm = "stdby"] ELSE s
+          ELSE s
+      ELSE IF Len(w) < 2 THEN s
+      ELSE
+        LET op == Op16(w)
+            s1 == [s EXCEPT !.pend = (op \in RespOps)] IN
+        CASE op = 283 ->                                                   \* 0x011B SetSleep
+                IF Len(w) >= 3 /\ w[3] % 2 = 1 THEN [s1 EXCEPT !.cm = "sleep_warm"]
+                ELSE [s1 EXCEPT !.cm = "sleep_cold", !.prog = {}]
+          [] op = 284 -> [s1 EXCEPT !.cm = "stdby"]                         \* 0x011C SetStandby
+          [] op \in {522, 537, 536, 521, 532} ->                            \* SetTx / SetTxCw / SetCad / SetRx / SetRxDutyCycle
+                LET missing == NeededLr(op, call) \ s.prog
+                    okc == IF missing = {} THEN TRUE
+                           ELSE Viol(s, <<"C14-3 operation started without reprogramming after cold start", call, op, "missing", missing>>)
+                    newcm == CASE op = 522 -> "tx" [] op = 537 -> "cw" [] op = 536 -> "cad" [] op = 532 -> "rxdc"
+                               [] OTHER -> IF Len(w) >= 5 /\ w[3] = 255 /\ w[4] = 255 /\ w[5] = 255 THEN "rxc" ELSE "rx"
+                IN [s1 EXCEPT !.cm = newcm, !.ok = s.ok /\ okc]
+          [] OTHER -> [s1 EXCEPT !.prog = s.prog \cup ItemOfLr(w)]
+
+\* "sx1262-lw" / "sx1276-lw" / "lr1110-lw": the same chips driven through the LoRaWAN radio adapter (lorawan_radio.rs)
 Is127(chip) == chip \in {"sx1276", "sx1276-lw"}
+IsLr(chip) == chip \in {"lr1110", "lr1110-lw"}
 RECURSIVE RunBus(_, _, _, _, _)
 RunBus(s, bus, i, call, chip) ==
     IF i > Len(bus) THEN s
-    ELSE RunBus(IF Is127(chip) THEN StepBus127(s, bus[i], call) ELSE StepBus(s, bus[i], call), bus, i + 1, call, chip)
+    ELSE RunBus(IF Is127(chip) THEN StepBus127(s, bus[i], call)
+                ELSE IF IsLr(chip) THEN StepBusLr(s, bus[i], call)
+                ELSE StepBus(s, bus[i], call), bus, i + 1, call, chip)
 
 \* ---------------------------------------------------------------- clauses on one API call
 ModeGate(call) ==
@@ -199,7 +276,8 @@ FaultOnStandbyCmd(e) ==
     e.fault >= 0 /\ e.fault + 1 <= Len(e.bus)
     /\ LET b == e.bus[e.fault + 1] IN
           \/ b.t = "rfoff"
-          \/ (b.t = "spi" /\ ~Is127(e.chip) /\ b.w[1] = 128)
+          \/ (b.t = "spi" /\ ~Is127(e.chip) /\ ~IsLr(e.chip) /\ b.w[1] = 128)
+          \/ (b.t = "spi" /\ IsLr(e.chip) /\ Len(b.w) >= 2 /\ b.w[1] = 1 /\ b.w[2] = 28)
           \/ (b.t = "spi" /\ Is127(e.chip) /\ b.w[1] = 129)
 
 \* the open finding S23 matches this call (injected bus fault, no standby / driver not reset)
@@ -232,8 +310,8 @@ CallOk(e, s) ==
 Ev(e) ==
     IF e.skipped = 1 THEN UNCHANGED <<cm, prog, taint>>
     ELSE LET t0 == IF e.first = 1 THEN "" ELSE taint
-             s0 == IF e.first = 1 THEN [cm |-> "stdby", prog |-> {}, ok |-> TRUE, taint |-> ""]
-                   ELSE [cm |-> cm, prog |-> prog, ok |-> TRUE, taint |-> t0]
+             s0 == IF e.first = 1 THEN [cm |-> "stdby", prog |-> {}, ok |-> TRUE, taint |-> "", pend |-> FALSE]
+                   ELSE [cm |-> cm, prog |-> prog, ok |-> TRUE, taint |-> t0, pend |-> FALSE]
              s == RunBus(s0, e.bus, 1, e.call, e.chip)
          IN \* histories are independent: a violated clause is printed (the runner reports it with the
             \* history) and validation continues with the chip model stepped by what was really sent
